@@ -99,6 +99,13 @@ func vInstallSnapshot(w int, faults bool) {
 			canceled = true
 		}
 	}
+	if faults {
+		// a stream that ended early (or ran over) never becomes a durable snapshot: after a restart it would
+		// be restored as if it were the complete state at its index
+		vAssert(vImplies(closedOK, vIOCopyN(0) == req.Size), "C11.install.only-complete-stream-becomes-durable")
+		vAssert(vImplies(closedOK, vIOCopyN(0) == req.Size), "C10.install.only-complete-stream-becomes-durable")
+		vAssert(vImplies(closedOK, vIOCopyN(0) == req.Size), "C02.install.only-complete-stream-becomes-durable")
+	}
 	if resp.Success {
 		vCover("install.success")
 		vAssert(created && closedOK && !canceled, "C11.install.durable-before-success")
